@@ -1042,6 +1042,30 @@ func (e *SpecEnv) callExpr(v *ast.CallExpr) Val {
 				return r
 			}
 			return Scalar{e.c.freshConst(e.s, "nocall", SBool), SBool, types.Typ[types.Bool]}
+		case "lastarg", "callarg":
+			// lastarg("callee", i): argument i (receiver = 0) of the most recent direct call of callee on this path
+			// callarg("callee", k, i): argument i of the k-th (0-based) direct call
+			name, _ := strconv.Unquote(v.Args[0].(*ast.BasicLit).Value)
+			calls := e.s.callArgs[name]
+			k := len(calls) - 1
+			ai := 1
+			if id.Name == "callarg" {
+				lit, ok := v.Args[1].(*ast.BasicLit)
+				if !ok {
+					specFail("callarg: call index must be a literal")
+				}
+				k, _ = strconv.Atoi(lit.Value)
+				ai = 2
+			}
+			lit, ok := v.Args[ai].(*ast.BasicLit)
+			if !ok {
+				specFail("%s: argument index must be a literal", id.Name)
+			}
+			i, _ := strconv.Atoi(lit.Value)
+			if k >= 0 && k < len(calls) && i >= 0 && i < len(calls[k]) {
+				return calls[k][i]
+			}
+			return Scalar{e.c.freshConst(e.s, "nocall", e.c.ar.idxSort()), e.c.ar.idxSort(), types.Typ[types.Int]}
 		case "lastresult":
 			// lastresult("callee"): result of the most recent call of callee on this path (unconstrained if none)
 			name, _ := strconv.Unquote(v.Args[0].(*ast.BasicLit).Value)
